@@ -25,6 +25,7 @@ type c08Case struct {
 	Cut       bool     // cut the connection after Close began and before the last release
 	CutAfter  int      // number of releases before the cut
 	Second    string   // a second closer started right after the first one: "" | session
+	SessAge   bool     // the closing side's session has a session age (PeerConfig.DefaultSessionAge) that elapses while Close waits for the handlers
 	Prior     []string // operations completed on the closing side's session before anything is in flight: okcall | failcall | push | unencodable (the argument cannot be marshalled: the call fails locally) | deadctx (the call's context is already cancelled: it fails locally)
 }
 
@@ -71,8 +72,17 @@ func runC08(c c08Case, protos []vt.NamedProto) []string {
 	lib := newLib()
 	w := vt.NewWorld()
 	defer w.Close()
-	pa := w.Peer(erpc.PeerConfig{})
-	pb := w.Peer(erpc.PeerConfig{})
+	cfgA, cfgB := erpc.PeerConfig{}, erpc.PeerConfig{}
+	if c.SessAge {
+		if c.Closer == "A" {
+			cfgA.DefaultSessionAge = c03InitialAge
+		} else {
+			cfgB.DefaultSessionAge = c03InitialAge
+		}
+	}
+	t0 := time.Now()
+	pa := w.Peer(cfgA)
+	pb := w.Peer(cfgB)
 	ra, _ := registerLib(pa)
 	rb, _ := registerLib(pb)
 	if ra != rb {
@@ -166,6 +176,14 @@ func runC08(c c08Case, protos []vt.NamedProto) []string {
 	}()
 	// wait until Close has really begun (the session reports unhealthy / closing)
 	vt.WaitUntilFor(3*time.Second, func() bool { return !closer.Health() })
+	if c.SessAge {
+		if time.Since(t0) > c03InitialAge*2/3 {
+			// too slow: the session age may have elapsed before the close began, which ends the session by itself
+			return []string{c03Unrealised}
+		}
+		// the session age of the closing side elapses while Close waits for the entered handlers
+		time.Sleep(c03InitialAge + 5*time.Millisecond)
+	}
 	// a second closer arrives while the first is still waiting: it is a Close like any other
 	close2Returned := make(chan struct{})
 	var close2Clock int64
@@ -356,6 +374,36 @@ func TestC08GracefulClose(t *testing.T) {
 		}
 		vt.Journal("C08", c)
 		if fails := runC08(c, protos); len(fails) > 0 {
+			t.Fatalf("C08 violated (%d findings), first: %s\ncase: %+v", len(fails), fails[0], c)
+		}
+	})
+}
+
+// TestC08SessionAge: the closing side's session has a session age, and that age elapses while
+// Close is waiting for handlers entered before it. The replies of those handlers are still genuine.
+func TestC08SessionAge(t *testing.T) {
+	rec := vt.NewRec(t, "C08", "session-age", "graceful close (session-level or peer-level, either end, optionally with a second closer) of a session whose closing side was configured with PeerConfig.DefaultSessionAge = 150 ms: 1-4 calls towards the closing side whose gated handlers are entered before Close is invoked; the harness then waits until the session age has elapsed (Close is still waiting) and releases the handlers in a generated order; oracle as in graceful-close: every such call completes OK with its genuine result, Close returns after the handlers' exits and after their replies are on the wire; a case in which Close could not be started within two thirds of the age is unrealised and decides nothing; non-trivial = realised; distinct by case")
+	protos := vt.StreamProtos()
+	rapid.Check(t, func(t *rapid.T) {
+		c := genC08(t, protos)
+		c.SessAge = true
+		c.In = rapid.IntRange(1, 4).Draw(t, "in_aged")
+		c.Out, c.Late, c.Cut, c.CutAfter = 0, 0, false, 0
+		c.Release = rapid.Permutation(seq(c.In)).Draw(t, "release_aged")
+		if len(c.Prior) > 1 {
+			c.Prior = c.Prior[:1]
+		}
+		vt.Journal("C08", c)
+		fails := runC08(c, protos)
+		if len(fails) == 1 && fails[0] == c03Unrealised {
+			rec.Case(fmt.Sprintf("%+v", c), false, "unrealised")
+			return
+		}
+		rec.Case(fmt.Sprintf("%+v", c), true, "proto="+c.Proto, fmt.Sprintf("peerclose=%v", c.PeerClose))
+		if rec.WantSample() {
+			rec.Sample(c)
+		}
+		if len(fails) > 0 {
 			t.Fatalf("C08 violated (%d findings), first: %s\ncase: %+v", len(fails), fails[0], c)
 		}
 	})
